@@ -15,9 +15,13 @@ SetMin(S) == CHOOSE x \in S : \A y \in S : x <= y
 
 \* indices of X that project onto out-index idx when the axes in axset (0-based) are reduced
 \* outIdx has the reduced axes present with value 0 (keepdims layout)
-SourceSet(shape, axset, kidx) ==
-   {src \in [1..Len(shape) -> 0..(SetMax(Range(shape) \cup {1}) - 1)] :
-       \A i \in 1..Len(shape) : src[i] < shape[i] /\ ((i - 1) \notin axset => src[i] = kidx[i])}
+\* built axis by axis over the reduced axes only (the filtered function set over all axes is exponential in the rank)
+RECURSIVE SourcesFrom(_, _, _)
+SourcesFrom(shape, axes, base) ==
+   IF axes = {} THEN {base}
+   ELSE LET a == CHOOSE x \in axes : \A y \in axes : x <= y IN
+        UNION {SourcesFrom(shape, axes \ {a}, [base EXCEPT ![a + 1] = v]) : v \in 0..(shape[a + 1] - 1)}
+SourceSet(shape, axset, kidx) == SourcesFrom(shape, axset, kidx)
 KeepShape(shape, axset) == [i \in 1..Len(shape) |-> IF (i - 1) \in axset THEN 1 ELSE shape[i]]
 DropShape(shape, axset) ==
    LET keep == SelectSeq([i \in 1..Len(shape) |-> i], LAMBDA i : (i - 1) \notin axset)
